@@ -614,6 +614,13 @@ class ThreadTrace(object):
                     cb = _CbWrap(tt, selfd.own_agent, cb)
                 return _orig(selfd, what, cb, *a, **k)
             setattr(D, meth, sub)
+        orig_all = D.subscribe_all_agents
+
+        def sub_all(selfd, cb=None, *a, **k):
+            if cb is not None and not isinstance(cb, _CbWrap):
+                cb = _CbWrap(tt, selfd.own_agent, cb)
+            return orig_all(selfd, cb, *a, **k)
+        D.subscribe_all_agents = sub_all
         # orchestrator entry points
         O = om.Orchestrator
         for meth, api in (("start", "orch_start"), ("deploy_computations", "orch_deploy"),
